@@ -90,7 +90,6 @@ func c07NoInputMutation(ctx *Ctx, r *Report, eng *effectsEngine) {
 var c07ProcessCallers = map[string]string{
 	"internal/ast/compiler.Passes.Process":    "the copying entry point: runs passes on the deep copy",
 	"internal/codegen.InputBase.filterSchema": "filters the schema just produced by this input's parser, before it is shared with anything",
-	"internal/jennies/php.RawTypes.Generate":  "works on the per-language languages.Context (already a copy made by ContextForLanguage)",
 }
 
 func c07WhoMayCall(ctx *Ctx, r *Report) {
